@@ -27,8 +27,8 @@ def gen_cases(tier, seed):
     for i in range(n):
         s = env.seed_for(seed, ID, tier, i)
         r = random.Random(s)
-        mode = r.choice(["w1", "anc", "wave"])
-        W = 1 if mode == "w1" else r.choice([2, 4, 8])
+        mode = r.choice(["w1", "anc", "wave", "registry", "failb"])
+        W = 1 if mode in ("w1", "registry", "failb") else r.choice([2, 4, 8])
         out.append({"seed": s, "mode": mode, "n": r.randint(2, 22 if tier == "quick" else 50), "W": W, "sched": r.choice(["default", "random"]),
                     "family": r.choice(["chain", "join", "diamond", "zipper", "crisscross", "tree", "layers", "random", "random"]),
                     "delays": "none" if mode == "wave" else "mixed",
@@ -37,12 +37,87 @@ def gen_cases(tier, seed):
     return out
 
 
+def held_by(obj):
+    holders = []
+    try:
+        for rf in gc.get_referrers(obj)[:6]:
+            holders.append(type(rf).__name__ + ":" + repr(rf)[:80])
+            for rf2 in gc.get_referrers(rf)[:3]:
+                holders.append("  <- " + type(rf2).__name__ + ":" + repr(rf2)[:80])
+    except Exception:
+        pass
+    return holders[:8]
+
+
+def run_registry(desc):
+    """Bare-node output + registry: the run goes on (writes of other out-of-date stored values) after the output call has
+    finished; the output call's arguments are not part of the output and must be released. One worker: at every call start
+    everything that ran before is fully processed."""
+    from vmon import history, regmodel
+
+    rng = random.Random(desc["seed"])
+    rp = regmodel.gen_regplan(rng, max(4, desc["n"]), cfg={"p_store": 0.4, "p_alias": 0.0})
+    S = regmodel.Session(rp, desc["seed"])
+    H = S.H
+    H.record_args = False
+    H.track_results = True
+    plain = [i for i, r_ in rp.role.items() if r_ == "plain" and S.ir.nodes[i].args]
+    if not plain:
+        return {"status": "ok", "counters": {"registry_cases_without_candidate": 1}, "nontrivial": False}
+    y = rng.choice(plain)
+    out_ids = regmodel.Bare(y)
+    exp = S.expect(out_ids, None)
+    state = {"bad": None, "checked": 0, "checkpoints": 0}
+
+    def pre(nid, att):
+        gc.collect()
+        state["checkpoints"] += 1
+        with H.lock:
+            done = set(H.ended_ok)
+            refs = dict(H.result_refs)
+        for p, wr in refs.items():
+            if p == y or rp.role[p] != "plain" or p not in done:
+                continue
+            cons = {m for m in S.argsucc[p] if m in exp.execs}
+            if not cons <= done:
+                continue
+            state["checked"] += 1
+            obj = wr()
+            if obj is not None and state["bad"] is None:
+                state["bad"] = (f"start of n{nid}: result of unstored n{p} is still alive although its consumers {sorted(cons)} have finished "
+                                f"(output is the bare node n{y}); held by {held_by(obj)}")
+            del obj
+
+    H.pre = pre
+    res, exc = S.run(out_ids, W=1, sched=desc["sched"])
+    H.pre = None
+    if exc is not None:
+        return {"status": "inconclusive", "detail": f"registry run raised {exc!r}"}
+    r_ = {"status": "ok", "counters": {"runs": 1, "mode_registry": 1, "liveness_checkpoints": state["checkpoints"], "results_checked_before_end": state["checked"]},
+          "nontrivial": state["checked"] > 0, "sig": hashlib.sha1(("\n".join(S.describe(100)) + f"|reg|{y}").encode()).hexdigest()[:16]}
+    if state["bad"]:
+        r_.update(status="violation", detail=state["bad"], mechanism="retained-result", witness={"plan": S.describe(100), "output": f"bare n{y}", "history": H.compact_history(200)})
+    return r_
+
+
 def run_case(desc):
+    if desc["mode"] == "registry":
+        return run_registry(desc)
     rng = random.Random(desc["seed"])
     ir = irmod.gen_ir(rng, desc["n"], family=desc["family"], rich=True, cfg=desc["cfg"])
     for n in ir.nodes:
         if n.kind == "call" and n.fnkind != "val":
             n.fnkind = "val"  # weak-referenceable, contains nothing
+    failb = None
+    if desc["mode"] == "failb":
+        # one consumer is the C function len() applied to a result that has no __len__: it finishes by raising, and no
+        # Python frame of the plan pins its arguments. max_errors=None lets the run go on.
+        cands = [n.id for n in ir.nodes if n.kind == "call"]
+        p = rng.choice(cands)
+        b = ir.add("call", fnkind="val", args=[irmod.ref(p)], fname="len", builtin=len)
+        failb = b.id
+        keep = [c for c in cands if c != p]
+        ir.output = irmod.X("list", [irmod.ref(b.id)] + [irmod.ref(c) for c in rng.sample(keep, min(len(keep), 3))])
     calls = set(ir.harness_calls())
     preds = ir.preds()
     # arg-edge successors (through builtin nodes) that are harness calls
@@ -113,7 +188,21 @@ def run_case(desc):
 
     mode = desc["mode"]
     drv = None
-    if mode == "w1":
+    obs = None
+    if mode == "failb":
+        from vmon import recobserver
+
+        obs = recobserver.RecObserver()
+
+        def pre(nid, att):
+            H = holder["R"].H
+            with H.lock:
+                done = set(H.ended_ok)
+            with obs.lock:
+                if any(t[2] == "failed" and t[4][-1:] == ("len",) for t in obs.trace):
+                    done.add(failb)  # the failing consumer has been processed (its failure was reported before this call started)
+            check(done, f"start of n{nid} (single worker, after the failure of the builtin consumer n{failb})" if failb in done else f"start of n{nid}")
+    elif mode == "w1":
         def pre(nid, att):
             H = holder["R"].H
             with H.lock:
@@ -141,20 +230,26 @@ def run_case(desc):
             drv.gate(nid)
         drv.start()
     try:
-        R = plainrun.execute(desc, pre=pre, record_args=False, track_results=True, ir=ir, before_run=lambda R_: holder.__setitem__("R", R_))
+        d2 = dict(desc, max_errors=None) if mode == "failb" else desc
+        R = plainrun.execute(d2, pre=pre, record_args=False, track_results=True, ir=ir, before_run=lambda R_: holder.__setitem__("R", R_),
+                             progress=obs.progress() if obs else None)
     finally:
         if drv is not None:
             drv.run_done = True
             drv.stop()
-    if R.exc is not None:
-        return {"status": "inconclusive", "detail": f"run raised {R.exc!r} cause {R.exc.__cause__!r}"}
-    # (iv) after the run: drop the returned value, everything must be dead
     mid_checked = state["checked"]
-    R.result = None
-    gc.collect()
-    alive = [p for p, wr in R.H.result_refs.items() if wr() is not None]
-    if alive and state["bad"] is None:
-        state["bad"] = f"after run returned and its value was dropped, results of {sorted(alive)[:8]} are still alive"
+    if mode == "failb":
+        if R.exc is None:
+            return {"status": "inconclusive", "detail": "len() consumer did not fail"}
+    else:
+        if R.exc is not None:
+            return {"status": "inconclusive", "detail": f"run raised {R.exc!r} cause {R.exc.__cause__!r}"}
+        # (iv) after the run: drop the returned value, everything must be dead
+        R.result = None
+        gc.collect()
+        alive = [p for p, wr in R.H.result_refs.items() if wr() is not None]
+        if alive and state["bad"] is None:
+            state["bad"] = f"after run returned and its value was dropped, results of {sorted(alive)[:8]} are still alive"
     counters = {"runs": 1, "liveness_checkpoints": state["checkpoints"], "results_checked_before_end": mid_checked,
                 "results_checked_after_end": len(R.H.result_refs), f"mode_{mode}": 1,
                 "quiescent_states": drv.quiescent_states if drv else 0}
@@ -174,7 +269,7 @@ def finalize(agg, tier):
     reasons = []
     if c["results_checked_before_end"] < 500:
         reasons.append("fewer than 500 results with finished consumers were checked before the end of their run")
-    for m in ("mode_w1", "mode_anc", "mode_wave"):
+    for m in ("mode_w1", "mode_anc", "mode_wave", "mode_registry", "mode_failb"):
         if c[m] < 20:
             reasons.append(f"too few {m} cases")
     return reasons
